@@ -857,3 +857,201 @@ Section Merge.
          end.
   Qed.
 End Merge.
+
+(** * The merge theorem from the empty timeline *)
+(* the solo timeline starts empty; the id it will give to its only track is i, the id the track has in the
+   joint run (ids are the model's names for Python object identities; they are not observable) *)
+Definition tl_at (i : nat) : timeline := mkTL 0 [] [] i 0 0 0.
+
+Definition cb_noops (cfg : config) : bool :=
+  forallb (fun cb : craise * list op => match snd cb with [] => true | _ => false end) (cbs cfg).
+Lemma cb_noops_nth cfg : cb_noops cfg = true -> forall cb, snd (nth cb (cbs cfg) (CbNone, [])) = [].
+Proof.
+  unfold cb_noops. intros H cb. rewrite forallb_forall in H.
+  destruct (Nat.lt_ge_cases cb (length (cbs cfg))) as [L|L].
+  - specialize (H _ (nth_In _ (CbNone, []) L)). destruct (snd (nth cb (cbs cfg) (CbNone, []))); [reflexivity|discriminate].
+  - rewrite nth_overflow by exact L. reflexivity.
+Qed.
+
+(* no deliberate coupling between tracks *)
+Definition uncoupled (cfg : config) : bool :=
+  (match dev_fail cfg with None => true | Some _ => false end) && cb_noops cfg
+  && negb (stop_when_done cfg) && (max_tracks cfg =? 0).
+
+Theorem merge_from_empty i pc pb cfg h :
+  uncoupled cfg = true -> hist_wf i pc pb 0 h = true -> all_ticks_ok cfg tl0 h = true ->
+  tick_calls cfg (tl_at i) (solo i 0 h) = map (filter (call_ok pc pb)) (tick_calls cfg tl0 h)
+  /\ sim i pc pb (run_state cfg tl0 h) (run_state cfg (tl_at i) (solo i 0 h))
+  /\ all_ticks_ok cfg (tl_at i) (solo i 0 h) = true.
+Proof.
+  unfold uncoupled. intros U W A. apply andb_true_iff in U as [U U4]. apply andb_true_iff in U as [U U3].
+  apply andb_true_iff in U as [U1 U2]. destruct (dev_fail cfg) eqn:D; [discriminate|].
+  apply negb_true_iff in U3. apply Z.eqb_eq in U4.
+  apply (merge_run i pc pb cfg D (cb_noops_nth cfg U2) U3 U4 h tl0 (tl_at i)); try assumption.
+  - constructor; reflexivity.
+  - unfold nid_rel. reflexivity.
+Qed.
+
+(* the record of track i and the pending actions that concern it are the same in both runs *)
+Corollary merge_track_state i pc pb cfg h :
+  uncoupled cfg = true -> hist_wf i pc pb 0 h = true -> all_ticks_ok cfg tl0 h = true ->
+  find_track i (tracks (run_state cfg (tl_at i) (solo i 0 h))) = find_track i (tracks (run_state cfg tl0 h))
+  /\ actions (run_state cfg (tl_at i) (solo i 0 h)) = filter (act_own i pc) (actions (run_state cfg tl0 h))
+  /\ now (run_state cfg (tl_at i) (solo i 0 h)) = now (run_state cfg tl0 h).
+Proof.
+  intros U W A. destruct (merge_from_empty i pc pb cfg h U W A) as [_ [S _]].
+  split; [apply (sim_find _ _ _ _ _ S)|]. split; [apply (s_act _ _ _ _ _ S)|apply (s_now _ _ _ _ _ S)].
+Qed.
+
+(** * Phase order of one tick *)
+Definition is_off (c : call) : bool := match c with CNoteOff _ _ => true | _ => false end.
+Definition is_event (c : call) : bool := negb (is_off c).
+Definition due_offs (t : track) : list call := snd (process_note_offs t).
+Definition action_calls (a : action) : list call :=
+  match a with ARelease _ n c => [CNoteOff n c] | AStart _ _ _ => [] end.
+(* the turns of the tracks: (id, calls made during its turn), in the order the turns are taken *)
+Fixpoint track_turns (cfg : config) (tl : timeline) (ids : list nat) : list (nat * list call) :=
+  match ids with
+  | [] => []
+  | id :: r => let '(tl', c, ab) := tick_one cfg tl id in
+               (id, c) :: match ab with Some _ => [] | None => track_turns cfg tl' r end
+  end.
+
+Lemma phase_noteoffs_calls l : snd (phase_noteoffs l) = concat (map due_offs l).
+Proof.
+  induction l as [|x r IH]; [reflexivity|]. cbn [phase_noteoffs map concat]. unfold due_offs at 1.
+  destruct (process_note_offs x) as [x' c]. destruct (phase_noteoffs r) as [r' cs]. simpl in *. rewrite IH. reflexivity.
+Qed.
+Lemma phase_noteoffs_ids l : map t_id (fst (phase_noteoffs l)) = map t_id l.
+Proof.
+  induction l as [|x r IH]; [reflexivity|]. cbn [phase_noteoffs].
+  assert (P : t_id (fst (process_note_offs x)) = t_id x) by reflexivity.
+  destruct (process_note_offs x) as [x' c]. destruct (phase_noteoffs r) as [r' cs]. simpl in *. rewrite IH, P. reflexivity.
+Qed.
+Lemma put_track_ids t' l : map t_id (put_track t' l) = map t_id l.
+Proof.
+  induction l as [|x r IH]; [reflexivity|]. cbn [put_track]. destruct (t_id x =? t_id t')%nat eqn:E; cbn [map].
+  - apply Nat.eqb_eq in E. rewrite E. reflexivity.
+  - rewrite IH. reflexivity.
+Qed.
+Lemma fire_action_ids tl a : map t_id (tracks (fst (fire_action tl a))) = map t_id (tracks tl) /\ now (fst (fire_action tl a)) = now tl
+  /\ snd (fire_action tl a) = action_calls a.
+Proof.
+  destruct a as [t id s|t n c]; simpl; [|repeat split].
+  destruct (find_track id (tracks tl)) as [tr|] eqn:F; simpl; [|repeat split].
+  split; [|split; reflexivity]. apply put_track_ids.
+Qed.
+Lemma phase_actions_calls todo : forall tl kept calls,
+  snd (phase_actions tl todo kept calls) = calls ++ concat (map action_calls (filter (fun a => a_time a <=? now tl) todo))
+  /\ map t_id (tracks (fst (fst (phase_actions tl todo kept calls)))) = map t_id (tracks tl).
+Proof.
+  induction todo as [|a r IH]; intros tl kept calls; cbn [phase_actions filter]; [simpl; rewrite app_nil_r; split; reflexivity|].
+  destruct (a_time a <=? now tl) eqn:E; [|apply IH].
+  destruct (fire_action_ids tl a) as [F1 [F2 F3]]. destruct (fire_action tl a) as [tl' c]. simpl in F1, F2, F3.
+  destruct (IH tl' kept (calls ++ c)) as [I1 I2]. rewrite I1, I2, F1, F2, F3. cbn [map concat]. rewrite <- app_assoc. split; reflexivity.
+Qed.
+Lemma phase_tracks_calls cfg ids : forall tl calls,
+  snd (fst (phase_tracks cfg tl ids calls)) = calls ++ concat (map snd (track_turns cfg tl ids)).
+Proof.
+  induction ids as [|id r IH]; intros tl calls; cbn [phase_tracks track_turns]; [simpl; rewrite app_nil_r; reflexivity|].
+  destruct (tick_one cfg tl id) as [[tl' c] ab]. destruct ab as [res|]; cbn [map concat snd fst].
+  - rewrite app_nil_r. reflexivity.
+  - rewrite IH, <- app_assoc. reflexivity.
+Qed.
+(* the turns are taken in the order of the list, without skipping anybody (the list ends early only if the tick aborts) *)
+Lemma track_turns_order cfg ids : forall tl, exists n, map fst (track_turns cfg tl ids) = firstn n ids.
+Proof.
+  induction ids as [|id r IH]; intros tl; [exists O; reflexivity|]. cbn [track_turns].
+  destruct (tick_one cfg tl id) as [[tl' c] ab]. destruct ab as [res|].
+  - exists 1%nat. reflexivity.
+  - destruct (IH tl') as [n Hn]. exists (S n). cbn [map fst firstn]. rewrite Hn. reflexivity.
+Qed.
+
+(* a track's turn makes no note-off call *)
+Lemma perform_voices_events fail nowT cur vs : forall n offs calls, forallb is_event calls = true ->
+  forallb is_event (snd (fst (fst (perform_voices fail nowT cur vs n offs calls)))) = true.
+Proof.
+  induction vs as [|v r IH]; intros n offs calls H; simpl; [exact H|].
+  destruct (voice_on v); [|apply IH; exact H]. destruct (dev_emit fail n); [|exact H].
+  apply IH. rewrite forallb_app, H. reflexivity.
+Qed.
+Lemma tick_one_events cfg tl id : forallb is_event (snd (fst (tick_one cfg tl id))) = true.
+Proof.
+  unfold tick_one. destruct (find_track id (tracks tl)) as [tr|]; [|reflexivity].
+  assert (A : forallb is_event (snd (fst (fst (track_tick_a cfg (now tl) tr (dev_calls tl))))) = true).
+  { unfold track_tick_a. destruct (negb (t_started tr)); [reflexivity|]. destruct (t_next tr <=? t_cur tr); [|reflexivity].
+    destruct (pull_loop (fuel cfg) tr None) as [[[e|]| | |] tr']; try reflexivity.
+    unfold perform_event. destruct (negb (e_active e)); [reflexivity|]. destruct (t_muted tr'); [reflexivity|].
+    destruct (e_kind e) as [vs|cb|c v ch|pr ch].
+    - pose proof (perform_voices_events (dev_fail cfg) (now tl) (t_cur tr') vs (dev_calls tl) (t_offs tr') [] eq_refl) as P.
+      destruct (perform_voices (dev_fail cfg) (now tl) (t_cur tr') vs (dev_calls tl) (t_offs tr') []) as [[[o c] n'] ok]. exact P.
+    - reflexivity.
+    - destruct (dev_emit (dev_fail cfg) (dev_calls tl)); reflexivity.
+    - destruct (dev_emit (dev_fail cfg) (dev_calls tl)); reflexivity. }
+  destruct (track_tick_a cfg (now tl) tr (dev_calls tl)) as [[[tr1 c] n1] res]. simpl in A.
+  destruct res; simpl; try exact A.
+  - destruct (ignore_exc cfg); exact A.
+  - destruct (nth cb (cbs cfg) (CbNone, [])) as [rk ops]. exact A.
+Qed.
+Lemma track_turns_events cfg ids : forall tl, forallb is_event (concat (map snd (track_turns cfg tl ids))) = true.
+Proof.
+  induction ids as [|id r IH]; intros tl; [reflexivity|]. cbn [track_turns].
+  pose proof (tick_one_events cfg tl id) as T. destruct (tick_one cfg tl id) as [[tl' c] ab]. simpl in T.
+  destruct ab; cbn [map concat snd]; rewrite forallb_app, T; [reflexivity|apply IH].
+Qed.
+Lemma due_offs_off l : forallb is_off (concat (map due_offs l)) = true.
+Proof.
+  induction l as [|x r IH]; [reflexivity|]. cbn [map concat]. rewrite forallb_app, IH, andb_true_r.
+  unfold due_offs, process_note_offs. cbn [snd]. induction (filter _ _) as [|y s IHs]; [reflexivity|exact IHs].
+Qed.
+Lemma action_calls_off l : forallb is_off (concat (map action_calls l)) = true.
+Proof. induction l as [|x r IH]; [reflexivity|]. cbn [map concat]. rewrite forallb_app, IH. destruct x; reflexivity. Qed.
+
+Theorem tl_tick_phases cfg tl :
+  let '(_, calls, _) := tl_tick cfg tl in
+  exists tl3,
+    calls = concat (map due_offs (tracks tl))
+            ++ concat (map action_calls (filter (fun a => a_time a <=? now tl) (actions tl)))
+            ++ concat (map snd (track_turns cfg tl3 (map t_id (tracks tl))))
+    /\ map t_id (tracks tl3) = map t_id (tracks tl).
+Proof.
+  unfold tl_tick. pose proof (phase_noteoffs_calls (tracks tl)) as N. pose proof (phase_noteoffs_ids (tracks tl)) as NI.
+  destruct (phase_noteoffs (tracks tl)) as [trs1 c1]. simpl in N, NI.
+  destruct (phase_actions_calls (actions (set_tracks tl trs1)) (set_actions (set_tracks tl trs1) []) [] []) as [A AI].
+  destruct (phase_actions (set_actions (set_tracks tl trs1) []) (actions (set_tracks tl trs1)) [] []) as [[tl2 kept] c3].
+  simpl in A, AI.
+  pose proof (phase_tracks_calls cfg (map t_id (tracks (set_actions tl2 (kept ++ actions tl2)))) (set_actions tl2 (kept ++ actions tl2)) []) as T.
+  destruct (phase_tracks cfg (set_actions tl2 (kept ++ actions tl2)) (map t_id (tracks (set_actions tl2 (kept ++ actions tl2)))) []) as [[tl4 c4] res].
+  simpl in T. rewrite AI, NI in T.
+  assert (G : exists tl3, c1 ++ c3 ++ c4 = concat (map due_offs (tracks tl))
+            ++ concat (map action_calls (filter (fun a => a_time a <=? now tl) (actions tl)))
+            ++ concat (map snd (track_turns cfg tl3 (map t_id (tracks tl)))) /\ map t_id (tracks tl3) = map t_id (tracks tl)).
+  { exists (set_actions tl2 (kept ++ actions tl2)). rewrite N, A, T. split; [reflexivity|]. simpl. rewrite AI, NI. reflexivity. }
+  destruct res; try exact G. destruct (_ && _); exact G.
+Qed.
+
+(* hence: inside one tick every note-off call precedes every other call *)
+Theorem tick_offs_first cfg tl :
+  exists offs evs, snd (fst (tl_tick cfg tl)) = offs ++ evs /\ forallb is_off offs = true /\ forallb is_event evs = true.
+Proof.
+  pose proof (tl_tick_phases cfg tl) as P. destruct (tl_tick cfg tl) as [[tl' calls] res]. destruct P as [tl3 [E _]].
+  exists (concat (map due_offs (tracks tl)) ++ concat (map action_calls (filter (fun a => a_time a <=? now tl) (actions tl)))),
+         (concat (map snd (track_turns cfg tl3 (map t_id (tracks tl))))).
+  simpl. rewrite E, <- app_assoc. split; [reflexivity|]. split.
+  - rewrite forallb_app, due_offs_off, action_calls_off. reflexivity.
+  - apply track_turns_events.
+Qed.
+
+(* legato: the release of a note and the onset of the same note on one tick come in that order *)
+Theorem legato_order cfg tl n v c :
+  In (CNoteOn n v c) (snd (fst (tl_tick cfg tl))) -> In (CNoteOff n c) (snd (fst (tl_tick cfg tl))) ->
+  exists a b, snd (fst (tl_tick cfg tl)) = a ++ b /\ In (CNoteOff n c) a /\ In (CNoteOn n v c) b
+              /\ ~ In (CNoteOff n c) b /\ ~ In (CNoteOn n v c) a.
+Proof.
+  destruct (tick_offs_first cfg tl) as [a [b [E [Ha Hb]]]]. rewrite E. intros Hon Hoff.
+  rewrite forallb_forall in Ha, Hb.
+  assert (Na : ~ In (CNoteOn n v c) a) by (intros X; specialize (Ha _ X); discriminate).
+  assert (Nb : ~ In (CNoteOff n c) b) by (intros X; specialize (Hb _ X); discriminate).
+  exists a, b. split; [reflexivity|]. apply in_app_or in Hon, Hoff.
+  destruct Hon as [X|X]; [contradiction|]. destruct Hoff as [Y|Y]; [|contradiction]. repeat split; assumption.
+Qed.
